@@ -113,3 +113,13 @@ reg("C29", "model_checking",
     "The real DisjointSet is bound by step-by-step replay conformance, which decides at run time which variant /repo implements, and by trace validation of every real execution against UnionFindAbs.tla: "
     "answers linearizable, arrays acyclic after every step, final partition equals the closure.",
     COOP_NOTE + " Bounded families, not all programs; random/DFS histories are sampled beyond the cap.", "DESIGN.md 9 C29")
+reg("C16", "model_checking",
+    "TLA+ Flatten (spec/Components.tla, a transcription of ComponentInstantiation.cpp/ComponentLookup) expands each generated component program inside TLC; the unchanged MC_Datalog computes the model of every expanded program for every bounded EDB; the real souffle runs the .comp/.init text and its I.rel.csv outputs are compared with the model",
+    "Expected outputs and all expanded names and types come from TLC: seven seeded hierarchy shapes per generator program (single component, inheritance chains with clauses below the declaration, type-parameterised outer components with nested inits, overridable relations replaced through .override, several instantiations, depth-3 nesting, nested component declarations shadowing globals); "
+    "interpreter and compiled sample; the expansion is cross-checked by TLC against the original flat program under the intended renaming.",
+    EVAL_NOTE + " No component-local types, no IO directives inside components, no multiple inheritance.", "DESIGN.md 9 C16")
+reg("C31", "model_checking",
+    "TLC model-checks an implementation-shaped spec (one action per SOUFFLE_VERIF scheduling point of ConcurrentFlyweight, ConcurrentInsertOnlyHashMap and MutexConcurrentLanes) refining a property-level interning spec; covering walks are replayed on the real flyweight under a cooperative scheduler; call/return histories of replayed, random and real-thread executions (SymbolTableImpl, SpecializedRecordTable) are validated by TLC",
+    "TLC explores all interleavings of 2-3 threads on distinct and shared lanes, with slot and bucket growth triggered at once, 2-3 values and duplicates (about 300k states quick, 2.8M thorough): same value <=> same index, decode(encode(v)) = v, one inserter per value, nil never returned, "
+    "quiescent iteration lists each value once, deadlock freedom, termination under weak fairness, refinement of InternAbs. Every transition of the 2-thread graphs is replayed on the real container with state compared after each step; every real history must be accepted by InternAbs.",
+    COOP_NOTE + " Larger shapes (up to 8 lanes/threads, 600 values) are covered only by trace validation of random and stress runs. An iterator racing with insertions is outside the property text and not judged.", "DESIGN.md 9 C31")
